@@ -691,6 +691,83 @@ macro_rules! backend_impl {
                 }
             }
 
+            /// direct API calls that reproduce the defect classes found by the C16 machinery (n = 256, base2k = 19, k = 152)
+            pub fn repro() {
+                let cxr = ctx(8, 19, 152);
+                let mut cxb = cxr.borrow_mut();
+                let cx: &mut Ctx = &mut cxb;
+                let m = cx.n / 2;
+                let show = |name: &str, r: Result<(), String>, ct: &Ct| {
+                    println!("  {name}: {:?}; dst log_delta={} log_budget={} effective_k={} max_k={}", r, ct.log_delta(), ct.log_budget(), ct.effective_k(), ct.max_k().as_usize());
+                };
+                let es = |r: Result<(), _>| -> Result<(), String> { r.map_err(|e: _| { let c = err_code(&e); format!("error kind {c}") }) };
+                let enc = |cx: &mut Ctx, size: usize, ld: usize, lbp: usize, k: usize, seed: u64| -> (Ct, Vec<f64>, Vec<f64>) {
+                    let mut ct = cx.alloc(size);
+                    let (pt, re, im) = cx.pt_znx(ld as i128, lbp as i128, 0, cx.base2k, seed, 0, 1.0).unwrap();
+                    let noise = NoiseInfos::new(k, DEFAULT_SIGMA_XE, DEFAULT_BOUND_XE).unwrap();
+                    let (mut xa, mut xe) = (Source::new([seed as u8; 32]), Source::new([seed as u8 + 1; 32]));
+                    cx.module.ckks_encrypt_sk(&mut ct, &pt, &cx.sk, &noise, &mut xa, &mut xe, cx.scratch.borrow()).unwrap();
+                    (ct, re, im)
+                };
+                let maxerr = |cx: &mut Ctx, ct: &Ct, re: &[f64], im: &[f64]| -> f64 {
+                    match cx.dec(ct) { Some((r, i)) => (0..m).map(|j| (r[j] - re[j]).abs().max((i[j] - im[j]).abs())).fold(0.0, f64::max), None => f64::NAN }
+                };
+                println!("K1 ckks_rescale_into into a smaller destination");
+                let (x, re, im) = enc(cx, 8, 30, 10, 152, 11);
+                let mut dst = cx.alloc(6);
+                let r = es(cx.module.ckks_rescale_into(&mut dst, 3, &x, cx.scratch.borrow()));
+                show("ckks_rescale_into(dst[6 limbs=114 bits], k=3, src(30,122))", r, &dst);
+                println!("  max slot error after decrypt: {:e} (2^-log_delta = {:e})", maxerr(cx, &dst, &re, &im), (-30f64).exp2());
+                println!("K7 ckks_mul_into with mixed metadata: a=(30,90) b=(20,110)");
+                let (a, are, aim) = enc(cx, 7, 30, 3, 120, 21);
+                let (b, bre, bim) = enc(cx, 7, 20, 3, 130, 22);
+                let mut dst = cx.alloc(8);
+                let r = es(cx.module.ckks_mul_into(&mut dst, &a, &b, &cx.tsk, cx.scratch.borrow()));
+                show("ckks_mul_into(dst[8], a, b)", r, &dst);
+                let (pre, pim) = cmul(&are, &aim, &bre, &bim);
+                println!("  max slot error: {:e}; max |a*b| = {:e}  (the product comes out scaled by 2^-10)", maxerr(cx, &dst, &pre, &pim), pre.iter().chain(pim.iter()).fold(0.0f64, |x, y| x.max(y.abs())));
+                let (b2, bre2, bim2) = enc(cx, 7, 20, 3, 120, 22);
+                let (a2, are2, aim2) = enc(cx, 7, 30, 3, 130, 21);
+                let mut dst = cx.alloc(8);
+                let r = es(cx.module.ckks_mul_into(&mut dst, &a2, &b2, &cx.tsk, cx.scratch.borrow()));
+                show("control: a=(30,100) b=(20,100)", r, &dst);
+                let (pre, pim) = cmul(&are2, &aim2, &bre2, &bim2);
+                println!("  max slot error: {:e}", maxerr(cx, &dst, &pre, &pim));
+                println!("K4 failed ckks_neg_into leaves dst.meta = src.meta; later calls on dst");
+                let mut small = cx.alloc(1);
+                let r = es(cx.module.ckks_neg_into(&mut small, &x, cx.scratch.borrow()));
+                show("ckks_neg_into(dst[1 limb=19 bits], src(30,122))", r, &small);
+                let r = es(cx.module.ckks_neg_assign(&mut small));
+                show("ckks_neg_assign(dst)", r, &small);
+                let r = catch_unwind(AssertUnwindSafe(|| cx.module.ckks_compact_limbs_copy(&small).map(|_| ())));
+                println!("  ckks_compact_limbs_copy(dst): {}", match r { Ok(_) => "returned".to_string(), Err(p) => format!("PANIC {}", panic_class(p)) });
+                println!("K2 ckks_add_pt_const_rnx_assign with a constant more precise than the ciphertext stores");
+                let (mut y, _, _) = enc(cx, 2, 30, 8, 38, 31);
+                let c = CKKSPlaintextCstRnx::<f64>::new(Some(0.5), None);
+                let r = catch_unwind(AssertUnwindSafe(|| cx.module.ckks_add_pt_const_rnx_assign(&mut y, &c, CKKSMeta { log_delta: 50, log_budget: 0 }, cx.scratch.borrow()).map(|_| ())));
+                println!("  ct(30,8)[2 limbs=38 bits] += const(prec log_delta=50): {}", match r { Ok(r) => format!("{:?}", es(r)), Err(p) => format!("PANIC {}", panic_class(p)) });
+                println!("K3 product of a ciphertext that is not stored compactly");
+                let mut sq = cx.alloc(8);
+                cx.module.ckks_square_into(&mut sq, &x, &cx.tsk, cx.scratch.borrow()).unwrap();
+                show("x2 = ckks_square_into(dst[8], x(30,122))", Ok(()), &sq);
+                let mut q = cx.alloc(8);
+                let r = catch_unwind(AssertUnwindSafe(|| cx.module.ckks_square_into(&mut q, &sq, &cx.tsk, cx.scratch.borrow()).map(|_| ())));
+                println!("  ckks_square_into(dst, x2) without ckks_compact_limbs: {}", match r { Ok(r) => format!("{:?}", es(r)), Err(p) => format!("PANIC {}", panic_class(p)) });
+                println!("K6 ckks_mul_pt_vec_znx_into with a plaintext of another base2k");
+                let (pt, _, _) = cx.pt_znx(20, 0, 0, 20, 5, 0, 1.0).unwrap();
+                let mut q = cx.alloc(8);
+                let r = catch_unwind(AssertUnwindSafe(|| cx.module.ckks_mul_pt_vec_znx_into(&mut q, &x, &pt, cx.scratch.borrow()).map(|_| ())));
+                println!("  mul: {}", match r { Ok(r) => format!("{:?}", es(r)), Err(p) => format!("PANIC {}", panic_class(p)) });
+                let r = catch_unwind(AssertUnwindSafe(|| cx.module.ckks_add_pt_vec_znx_into(&mut q, &x, &pt, cx.scratch.borrow()).map(|_| ())));
+                println!("  add: {}", match r { Ok(r) => format!("{:?}", es(r)), Err(p) => format!("PANIC {}", panic_class(p)) });
+                println!("K5 absurd scalars (overflow checks {})", if cfg!(debug_assertions) { "on" } else { "off" });
+                let mut q = cx.alloc(7);
+                let r = catch_unwind(AssertUnwindSafe(|| cx.module.ckks_div_pow2_into(&mut q, &x, usize::MAX, cx.scratch.borrow()).map(|_| ())));
+                match r { Ok(r) => show("ckks_div_pow2_into(dst[7], x(30,122), bits=usize::MAX)", es(r), &q), Err(p) => println!("  ckks_div_pow2_into(dst[7], x, usize::MAX): PANIC {}", panic_class(p)) }
+                let r = catch_unwind(AssertUnwindSafe(|| q.set_meta_checked(CKKSMeta { log_delta: usize::MAX, log_budget: 2 }).map(|_| ())));
+                match r { Ok(r) => show("set_meta_checked(log_delta=usize::MAX, log_budget=2)", es(r), &q), Err(p) => println!("  set_meta_checked(usize::MAX, 2): PANIC {}", panic_class(p)) }
+            }
+
             pub fn run(code: i64, ps: &[i128], steps: &[Vec<i128>]) -> Vec<Vec<i128>> {
                 let mut mach = Machine::new(ps[1] as usize, ps[2] as usize, ps[3] as usize);
                 let mut out = Vec::new();
@@ -955,7 +1032,7 @@ const CONFIGS: [(i128, usize, usize, usize); 4] = [(1, 7, 19, 152), (3, 7, 52, 3
 pub fn generate(tier: &str, seed: u64) -> Vec<Rec> {
     let (value, tier) = match tier.strip_prefix("value:") { Some(t) => (true, t), None => (false, tier) };
     let mut rng = Rng::new(seed ^ if value { 0x5a5a } else { 0 });
-    let nprog = if tier == "thorough" { 400 } else { 80 };
+    let nprog = if tier == "thorough" { 1200 } else { 240 };
     let code = if value { 16002 } else { 16001 };
     let mut out = Vec::new();
     for i in 0..nprog {
@@ -977,6 +1054,24 @@ pub fn generate(tier: &str, seed: u64) -> Vec<Rec> {
             out.push(Rec::new(16003, vec![logm, rng.next() as u32 as i128, kind, e], vec![]));
         } } }
     } else {
+        // one deterministic probe per known-finding class (so that every class is exercised on every run)
+        {
+            let (be, logn, b2k, kmax) = CONFIGS[0];
+            let enc = st(&[ENCRYPT, 0, 0, 0, 30, 10, 152, 11, 0]);
+            let probes: Vec<Vec<Vec<i128>>> = vec![
+                // K1 rescale_into a smaller destination
+                vec![st(&[ALLOC, 0, 0, 0, 8]), st(&[ALLOC, 1, 0, 0, 6]), enc.clone(), st(&[RESCALE_INTO, 1, 0, 0, 3])],
+                // K2 constant more precise than the destination stores
+                vec![st(&[ALLOC, 0, 0, 0, 2]), st(&[ENCRYPT, 0, 0, 0, 30, 8, 38, 11, 0]), st(&[ADD_CR_ASSIGN, 0, 0, 0, 50, 0, 1, 5])],
+                // K3 product of a ciphertext that is not stored compactly
+                vec![st(&[ALLOC, 0, 0, 0, 8]), st(&[ALLOC, 1, 0, 0, 8]), st(&[ALLOC, 2, 0, 0, 8]), enc.clone(), st(&[SQUARE_INTO, 1, 0]), st(&[SQUARE_INTO, 2, 1])],
+                // K4 failed neg_into leaves stale metadata; neg_assign succeeds on it; compact_limbs_copy panics
+                vec![st(&[ALLOC, 0, 0, 0, 8]), st(&[ALLOC, 1, 0, 0, 1]), st(&[ALLOC, 2, 0, 0, 1]), enc.clone(), st(&[NEG_INTO, 1, 0]), st(&[NEG_ASSIGN, 1]), st(&[COMPACT_COPY, 2, 1])],
+                // K6 product with a vector plaintext of another base2k
+                vec![st(&[ALLOC, 0, 0, 0, 8]), st(&[ALLOC, 1, 0, 0, 8]), enc.clone(), st(&[MUL_PTZ_INTO, 1, 0, 0, 20, 0, 0, 5, 0, 20])],
+            ];
+            for p in probes { out.push(Rec::new(code, vec![be, logn as i128, b2k as i128, kmax as i128, chk_flag()], p)); }
+        }
         // usize overflow probes (absurd scalars): div_pow2_into / mul_pow2_into / set_meta_checked
         let big = (1i128 << 64) - 1;
         for (be, logn, b2k, kmax) in [CONFIGS[0], CONFIGS[1]] {
@@ -1017,6 +1112,7 @@ fn main() {
                 }
             }
         }
-        _ => { eprintln!("usage: <bin> gen <tier> <seed> <out> | exec <in> <out>"); std::process::exit(2); }
+        "repro" => fft64ref::repro(),
+        _ => { eprintln!("usage: <bin> gen <tier> <seed> <out> | exec <in> <out> | repro"); std::process::exit(2); }
     }
 }
